@@ -434,25 +434,29 @@ Lemma seg_append_lock o tw ls e ec r tw' e' rc twc ec' : R o e ec ->
   (o = Some (ws_name tw) -> wguard (e_disk e) (ws_name tw) (ws_off tw)) ->
   seg_append tw ls e = (r, tw', e') -> seg_append tw ls ec = (rc, twc, ec') ->
   aext ec ec' /\ e_fault ec' = None /\
-  ((r = rc /\ tw' = twc /\ R o e' ec' /\ (rc = ROk -> ls <> [] -> R (clr o (ws_name tw)) e' ec')) \/
+  ((r = rc /\ tw' = twc /\ R o e' ec' /\ (rc = ROk -> ls <> [] -> R (clr o (ws_name tw)) e' ec') /\
+    (rc <> ROk -> e' = e /\ ec' = ec /\ tw' = tw)) \/
    (rc = ROk /\ ls <> [] /\ r = RErrIO /\ tw' = tw /\ e_fault e' = None /\
+    (exists l0 lr, ls = l0 :: lr /\ l_index l0 = ws_base tw + ws_n tw /\ ws_index_start tw = 0) /\
     (e_disk e' = e_disk e \/
      (drel (clr o (ws_name tw)) (e_disk e') (apply_act (e_disk ec) (append_act tw ls)) /\
       pfx ec ec' (apply_act (e_disk ec) (append_act tw ls)))))).
 Proof.
   intros HR Hg. rewrite !seg_append_eq. destruct ls as [|l0 ls'].
   { intros E1 E2. inversion E1; inversion E2; subst. split; [apply aext_refl|]. split; [apply HR|]. left.
-    split; [reflexivity|]. split; [reflexivity|]. split; [exact HR|]. intros _ K. congruence. }
+    split; [reflexivity|]. split; [reflexivity|]. split; [exact HR|]. split; [intros _ K; congruence|congruence]. }
   set (ls := l0 :: ls') in *.
-  destruct (0 <? ws_index_start tw).
+  destruct (0 <? ws_index_start tw) eqn:Eis.
   { intros E1 E2. inversion E1; inversion E2; subst. split; [apply aext_refl|]. split; [apply HR|]. left.
-    split; [reflexivity|]. split; [reflexivity|]. split; [exact HR|]. discriminate. }
+    split; [reflexivity|]. split; [reflexivity|]. split; [exact HR|]. split; [discriminate|auto]. }
   destruct (existsb _ ls).
   { intros E1 E2. inversion E1; inversion E2; subst. split; [apply aext_refl|]. split; [apply HR|]. left.
-    split; [reflexivity|]. split; [reflexivity|]. split; [exact HR|]. discriminate. }
-  destruct (negb _).
+    split; [reflexivity|]. split; [reflexivity|]. split; [exact HR|]. split; [discriminate|auto]. }
+  destruct (negb (l_index l0 =? ws_base tw + ws_n tw)) eqn:Eidx.
   { intros E1 E2. inversion E1; inversion E2; subst. split; [apply aext_refl|]. split; [apply HR|]. left.
-    split; [reflexivity|]. split; [reflexivity|]. split; [exact HR|]. discriminate. }
+    split; [reflexivity|]. split; [reflexivity|]. split; [exact HR|]. split; [discriminate|auto]. }
+  assert (Hfacts : exists l1 lr, ls = l1 :: lr /\ l_index l1 = ws_base tw + ws_n tw /\ ws_index_start tw = 0).
+  { exists l0, ls'. split; [reflexivity|]. split; lia. }
   destruct (append_act_form tw ls) as (l & b & Ea). rewrite Ea.
   destruct (io_lock_write o (ws_name tw) (ws_off tw) l b e ec HR Hg) as (Ec & Hr).
   set (a := AWrite (ws_name tw) (ws_off tw) l b) in *.
@@ -463,12 +467,15 @@ Proof.
   - destruct (io_lock_sync (clr o (ws_name tw)) (ws_name tw) e1 (io_env a ec) HR1 (clr_not _ _)) as (_ & [(e2 & Er2 & HR2)|(e2 & Er2 & D2 & F2)]);
       rewrite Er2; cbn [negb]; intros E1 E2; inversion E1; inversion E2; subst;
       (split; [eapply aext_trans; apply aext_io|]); (split; [reflexivity|]).
-    + left. repeat split; auto; try apply HR2. apply (drel_clr_weaken o (ws_name tw)). apply HR2.
-    + right. repeat split; auto; try discriminate. right. rewrite D2. split; [apply HR1|].
+    + left. split; [reflexivity|]. split; [reflexivity|]. split; [apply (R_clr_weaken o (ws_name tw)); exact HR2|].
+      split; [intros _ _; exact HR2|congruence].
+    + right. split; [reflexivity|]. split; [discriminate|]. split; [reflexivity|]. split; [reflexivity|]. split; [exact F2|].
+      split; [exact Hfacts|]. right. rewrite D2. split; [apply HR1|].
       eapply pfx_more; [apply (pfx_end ec (io_env a ec)); apply aext_io|apply aext_io].
   - intros E1 E2; inversion E1; inversion E2; subst.
     split; [eapply aext_trans; apply aext_io|]. split; [reflexivity|].
-    right. repeat split; auto; discriminate.
+    right. split; [reflexivity|]. split; [discriminate|]. split; [reflexivity|]. split; [reflexivity|]. split; [exact F|].
+    split; [exact Hfacts|]. left. exact D.
 Qed.
 
 (* ------------------------------------------------------------------ *)
@@ -506,7 +513,8 @@ Lemma seg_force_seal_lock o tw e ec r tw' e' rc twc ec' : R o e ec ->
   (o = Some (ws_name tw) -> wguard (e_disk e) (ws_name tw) (ws_off tw)) ->
   seg_force_seal tw e = (r, tw', e') -> seg_force_seal tw ec = (rc, twc, ec') ->
   aext ec ec' /\ e_fault ec' = None /\
-  ((r = rc /\ tw' = twc /\ R o e' ec' /\ (rc = ROk -> ws_index_start tw = 0 -> R (clr o (ws_name tw)) e' ec')) \/
+  ((r = rc /\ tw' = twc /\ R o e' ec' /\ (rc = ROk -> ws_index_start tw = 0 -> R (clr o (ws_name tw)) e' ec') /\
+    (rc <> ROk \/ ws_index_start tw <> 0 -> e' = e /\ ec' = ec /\ tw' = tw)) \/
    (rc = ROk /\ ws_index_start tw = 0 /\ r = RErrIO /\ tw' = tw /\ e_fault e' = None /\
     (e_disk e' = e_disk e \/
      (drel (clr o (ws_name tw)) (e_disk e') (apply_act (e_disk ec) (force_act tw)) /\
@@ -515,10 +523,10 @@ Proof.
   intros HR Hg. rewrite !seg_force_seal_eq.
   destruct (0 <? ws_index_start tw) eqn:Eis.
   { intros E1 E2. inversion E1; inversion E2; subst. split; [apply aext_refl|]. split; [apply HR|]. left.
-    split; [reflexivity|]. split; [reflexivity|]. split; [exact HR|]. intros _ K. lia. }
+    split; [reflexivity|]. split; [reflexivity|]. split; [exact HR|]. split; [intros _ K; lia|auto]. }
   destruct (ws_n tw =? 0).
   { intros E1 E2. inversion E1; inversion E2; subst. split; [apply aext_refl|]. split; [apply HR|]. left.
-    split; [reflexivity|]. split; [reflexivity|]. split; [exact HR|]. discriminate. }
+    split; [reflexivity|]. split; [reflexivity|]. split; [exact HR|]. split; [discriminate|auto]. }
   assert (His : ws_index_start tw = 0) by lia.
   destruct (force_act_form tw) as (l & b & Ea). rewrite Ea.
   destruct (io_lock_write o (ws_name tw) (ws_off tw) l b e ec HR Hg) as (Ec & Hr).
@@ -530,7 +538,8 @@ Proof.
   - destruct (io_lock_sync (clr o (ws_name tw)) (ws_name tw) e1 (io_env a ec) HR1 (clr_not _ _)) as (_ & [(e2 & Er2 & HR2)|(e2 & Er2 & D2 & F2)]);
       rewrite Er2; cbn [negb]; intros E1 E2; inversion E1; inversion E2; subst;
       (split; [eapply aext_trans; apply aext_io|]); (split; [reflexivity|]).
-    + left. repeat split; auto; try apply HR2. apply (drel_clr_weaken o (ws_name tw)). apply HR2.
+    + left. split; [reflexivity|]. split; [reflexivity|]. split; [apply (R_clr_weaken o (ws_name tw)); exact HR2|].
+      split; [intros _ _; exact HR2|]. intros [K|K]; congruence.
     + right. repeat split; auto; try discriminate. right. rewrite D2. split; [apply HR1|].
       eapply pfx_more; [apply (pfx_end ec (io_env a ec)); apply aext_io|apply aext_io].
   - intros E1 E2; inversion E1; inversion E2; subst.
@@ -615,12 +624,16 @@ Qed.
 Lemma mutate_gen_lock o defer w t e ec r w' e' dl rc wc' ec' dlc : R o e ec ->
   mutate_gen defer w t e = (r, w', e', dl) -> mutate_gen defer w t ec = (rc, wc', ec', dlc) ->
   (r = rc /\ w' = wc' /\ dl = dlc /\ R o e' ec' /\
-   (rc = ROk -> defer = false -> forall n, o = Some n -> In n (tx_delete t) -> R None e' ec')) \/
+   (rc = ROk -> defer = false -> forall n, o = Some n -> In n (tx_delete t) -> R None e' ec') /\
+   (rc <> ROk -> st_failed wc' = true)) \/
   (e_fault e' = None /\ r = RErrIO /\ dl = [] /\
    ((w' = w /\ e_disk e' = e_disk e) \/
     (rc = ROk /\ w' = set_failed w /\ tx_create t <> None /\
      drel o (e_disk e') (apply_act (e_disk ec) (ACommit (tx_ps t))) /\
-     pfx ec ec' (apply_act (e_disk ec) (ACommit (tx_ps t)))))).
+     pfx ec ec' (apply_act (e_disk ec) (ACommit (tx_ps t))) /\
+     dk_meta (e_disk ec') = Some (tx_ps t) /\
+     (defer = false -> forall n, In n (tx_delete t) -> lookup n (dk_files (e_disk ec')) = None) /\
+     NoDup (map fst (dk_files (e_disk ec')))))).
 Proof.
   intros HR. unfold mutate_gen. fold (tx_ps t).
   destruct (io_lock o (ACommit (tx_ps t)) e ec HR I) as (Ec & [(e1 & Er & HR1)|(e1 & Er & D & F)]); rewrite Ec, Er; cbn [negb].
@@ -631,42 +644,59 @@ Proof.
     destruct (seg_create_lock o si e1 ec1 sw e2 swc ec2 HR1 Es Esc) as (A1 & A2 & [(-> & HR2)|(-> & -> & D & F & Dc)]).
     + destruct swc as [sw|].
       * destruct defer; intros E1 E2; inversion E1; inversion E2; subst; left.
-        -- repeat split; auto; try apply HR2. discriminate.
+        -- split; [reflexivity|]. split; [reflexivity|]. split; [reflexivity|]. split; [exact HR2|]. split; [discriminate|congruence].
         -- destruct (delete_files_lock o (tx_delete t) e2 ec2 HR2) as (B1 & _ & _ & _ & _ & B6).
            split; [reflexivity|]. split; [reflexivity|]. split; [reflexivity|]. split; [exact B1|].
-           intros _ _ n Ho Hin. apply (B6 n Ho Hin).
+           split; [intros _ _ n Ho Hin; apply (B6 n Ho Hin)|congruence].
       * intros E1 E2; inversion E1; inversion E2; subst. left.
-        split; [reflexivity|]. split; [reflexivity|]. split; [reflexivity|]. split; [exact HR2|]. discriminate.
+        split; [reflexivity|]. split; [reflexivity|]. split; [reflexivity|]. split; [exact HR2|]. split; [discriminate|reflexivity].
     + intros E1. inversion E1; subst. intros E2. right.
       split; [exact F|]. split; [reflexivity|]. split; [reflexivity|]. right.
-      assert (Hsh : shok ec2 ec' /\ rc = ROk).
-      { destruct defer; inversion E2; subst; (split; [|reflexivity]); [apply shok_refl; exact A2|apply sh_delete_files; exact A2]. }
-      destruct Hsh as (Hsh & ->).
+      assert (ND2 : NoDup (map fst (dk_files (e_disk ec2)))).
+      { rewrite Dc. cbn [apply_act dk_files]. apply update_NoDup. apply HR1. }
+      assert (Hm2 : dk_meta (e_disk ec2) = Some (tx_ps t)) by (rewrite Dc; reflexivity).
+      assert (Hsh : shok ec2 ec' /\ rc = ROk /\ dk_meta (e_disk ec') = Some (tx_ps t) /\
+                    (defer = false -> forall n, In n (tx_delete t) -> lookup n (dk_files (e_disk ec')) = None) /\
+                    NoDup (map fst (dk_files (e_disk ec')))).
+      { destruct defer; inversion E2; subst.
+        - split; [apply shok_refl; exact A2|]. split; [reflexivity|]. split; [exact Hm2|]. split; [discriminate|exact ND2].
+        - split; [apply sh_delete_files; exact A2|]. split; [reflexivity|].
+          rewrite (delete_files_disk _ _ A2). destruct (del_disk_meta (tx_delete t) (e_disk ec2)) as (M1 & _).
+          split; [rewrite M1; exact Hm2|]. split; [|apply del_disk_NoDup; exact ND2]. intros _ n Hin. rewrite (del_disk_lookup _ _ n ND2).
+          replace (mem_name n (tx_delete t)) with true; [reflexivity|]. symmetry. apply mem_name_spec. exact Hin. }
+      destruct Hsh as (Hsh & -> & Hm' & Hdel' & ND').
       split; [reflexivity|]. split; [reflexivity|]. split; [discriminate|].
       split; [rewrite D; apply HR1|].
-      eapply pfx_more; [apply (pfx_end ec ec1); apply aext_io|]. eapply aext_trans; [exact A1|apply Hsh].
+      split; [eapply pfx_more; [apply (pfx_end ec ec1); apply aext_io|]; eapply aext_trans; [exact A1|apply Hsh]|].
+      split; [exact Hm'|]. split; [exact Hdel'|exact ND'].
   - destruct defer; intros E1 E2; inversion E1; inversion E2; subst; left.
-    + repeat split; auto; try apply HR1. discriminate.
+    + split; [reflexivity|]. split; [reflexivity|]. split; [reflexivity|]. split; [exact HR1|]. split; [discriminate|congruence].
     + destruct (delete_files_lock o (tx_delete t) e1 ec1 HR1) as (B1 & _ & _ & _ & _ & B6).
       split; [reflexivity|]. split; [reflexivity|]. split; [reflexivity|]. split; [exact B1|].
-      intros _ _ n Ho Hin. apply (B6 n Ho Hin).
+      split; [intros _ _ n Ho Hin; apply (B6 n Ho Hin)|congruence].
 Qed.
 
 Lemma mutate_lock o w t e ec r w' e' rc wc' ec' : R o e ec ->
   mutate w t e = (r, w', e') -> mutate w t ec = (rc, wc', ec') ->
   (r = rc /\ w' = wc' /\ R o e' ec' /\
-   (rc = ROk -> forall n, o = Some n -> In n (tx_delete t) -> R None e' ec')) \/
+   (rc = ROk -> forall n, o = Some n -> In n (tx_delete t) -> R None e' ec') /\
+   (rc <> ROk -> st_failed wc' = true)) \/
   (e_fault e' = None /\ r = RErrIO /\
    ((w' = w /\ e_disk e' = e_disk e) \/
     (rc = ROk /\ w' = set_failed w /\ tx_create t <> None /\
      drel o (e_disk e') (apply_act (e_disk ec) (ACommit (tx_ps t))) /\
-     pfx ec ec' (apply_act (e_disk ec) (ACommit (tx_ps t)))))).
+     pfx ec ec' (apply_act (e_disk ec) (ACommit (tx_ps t))) /\
+     dk_meta (e_disk ec') = Some (tx_ps t) /\
+     (forall n, In n (tx_delete t) -> lookup n (dk_files (e_disk ec')) = None) /\
+     NoDup (map fst (dk_files (e_disk ec')))))).
 Proof.
   intros HR. unfold mutate.
   destruct (mutate_gen false w t e) as [[[r0 w0] e0] d0] eqn:E1.
   destruct (mutate_gen false w t ec) as [[[rc0 wc0] ec0] dc0] eqn:E2.
   intros K1 K2; inversion K1; inversion K2; subst.
-  destruct (mutate_gen_lock o false w t e ec _ _ _ _ _ _ _ _ HR E1 E2) as [(A & B & C & D & E)|(A & B & C & D)].
-  - left. split; [exact A|]. split; [exact B|]. split; [exact D|]. intros Hr n Ho Hin. apply (E Hr eq_refl n Ho Hin).
+  destruct (mutate_gen_lock o false w t e ec _ _ _ _ _ _ _ _ HR E1 E2) as [(A & B & C & D & E & F)|(A & B & C & [D|(D0 & D1 & D2 & D3 & D4 & D5 & D6 & D7)])].
+  - left. split; [exact A|]. split; [exact B|]. split; [exact D|]. split; [|exact F]. intros Hr n Ho Hin. apply (E Hr eq_refl n Ho Hin).
   - right. auto.
+  - right. split; [exact A|]. split; [exact B|]. right. split; [exact D0|]. split; [exact D1|]. split; [exact D2|].
+    split; [exact D3|]. split; [exact D4|]. split; [exact D5|]. split; [apply D6; reflexivity|exact D7].
 Qed.
